@@ -7,7 +7,10 @@ for l in open('/verif/seeded/DETECTION.tsv'):
     f = l.rstrip('\n').split('\t')
     if len(f) < 3 or not f[2].startswith('rc='):
         continue
-    det.setdefault(f[0], []).append({"check": f[1], "exit": int(f[2][3:]), "signatures": [s for s in (f[3] if len(f) > 3 else '').split(';') if s]})
+    r = {"check": f[1], "exit": int(f[2][3:]), "signatures": [s for s in (f[3] if len(f) > 3 else '').split(';') if s]}
+    if len(f) > 4 and f[4].startswith('hits=') and f[4][5:].isdigit():
+        r["violating_observations"] = int(f[4][5:])
+    det.setdefault(f[0], []).append(r)
 rows = {'m': [], 'r2': [], 'hist': []}
 for name, res in det.items():
     p = '/verif/seeded/%s/meta.json' % name
@@ -36,4 +39,6 @@ for k in ('m', 'r2', 'hist'):
     print('\n'.join(rows[k]))
     print()
 bad = [n for n, r in det.items() if not any(x['exit'] == 1 for x in r)]
+thin = sorted((max([x.get('violating_observations', 0) for x in r if x['exit'] == 1] or [0]), n) for n, r in det.items())
+print('THINNEST:', thin[:15])
 print('NOT DETECTED:', bad)
